@@ -1067,6 +1067,35 @@ pub fn generate(rng: &mut Rng, thorough: bool) -> Workload {
             }
         }
     }
+    // option twins: one text under two operator-set options, back to back on one thread -
+    // an option that sticks to the thread (or to a cache) shows up in the second compile
+    let mut option_pair: Option<(usize, usize)> = None;
+    if progs.len() < 6 && rng.chance(1, 5) {
+        const OPS_SENSITIVE: [&str; 2] = [
+            "(mod (X) (include *standard-cl-23*) (defun f (A) (+ A (% 1000 7))) (f X))",
+            "(mod (X) (include *standard-cl-23*) (defconst K (modpow 2 10 1000)) (+ X K))",
+        ];
+        let text = OPS_SENSITIVE[rng.below(2) as usize];
+        let versions = [None, Some(0u8), Some(1u8)];
+        let va = rng.below(3) as usize;
+        let vb = (va + 1 + rng.below(2) as usize) % 3;
+        let cli = rng.chance(1, 3);
+        for (k, v) in [versions[va], versions[vb]].iter().enumerate() {
+            progs.push(Prog {
+                name: format!("opsv{}.clsp", k),
+                text: text.to_string(),
+                search: vec![],
+                with_opts: true,
+                corpus: false,
+                files: vec![],
+                cli,
+                ops_version: *v,
+                direct: None,
+                py: false,
+            });
+        }
+        option_pair = Some((progs.len() - 1, progs.len() - 2));
+    }
     // one run in eight goes through the command line front end only
     if rng.chance(1, 8) {
         for p in progs.iter_mut() {
@@ -1137,6 +1166,7 @@ pub fn generate(rng: &mut Rng, thorough: bool) -> Workload {
         .into_iter()
         .chain(dialect_pair.into_iter())
         .chain(include_pair.into_iter())
+        .chain(option_pair.into_iter())
     {
         let (a, b) = if rng.chance(1, 2) { (tw, src) } else { (src, tw) };
         let t = rng.below(threads.len() as u64) as usize;
